@@ -301,7 +301,10 @@ def advShow (r : Except Err (Option BleAdv.Adv)) : String :=
   | .ok none => "none"
   | .error e => exErr e
 
-/-- commissionable advertisement: modelled (`Model/Codec/BleAdv.lean`); the recovery advertisement: oracle only -/
+/-- commissionable advertisement: modelled (`Model/Codec/BleAdv.lean`). The recovery advertisement (`rrt` and its half of
+`dec`) is modelled too (`Model/Codec/BleRecovery.lean`) and answered by `Driver.C17Discovery.stepAdv`, which calls this
+function for `rt` and for the `AdvData` half of `dec`; the `rrt` branch below (oracle only) predates it and is no longer
+reached from `Driver.C17` -/
 def stepAdv (op : List String) (out : String) : String :=
   if isPanic out then "ORA decoder panicked" else
   match op with
